@@ -279,6 +279,14 @@ ${body}"""
     ):
         Response.__init__(self, status=f"{self.code} {self.title}", **kw)
         Exception.__init__(self, detail)
+        # A body is generated on call only while the application has supplied
+        # none: remember the empty body Response.__init__ installed in that
+        # case (an explicitly supplied body may be empty, too).
+        supplied = any(
+            name in kw
+            for name in ("body", "app_iter", "text", "json", "json_body", "body_file")
+        )
+        self._unset_app_iter = None if supplied else self._app_iter
 
         if headers:
             self.headers.extend(headers)
@@ -387,7 +395,11 @@ ${body}"""
     def __call__(self, environ, start_response):
         is_head = environ["REQUEST_METHOD"] == "HEAD"
 
-        if self.has_body or self.empty_body or is_head:
+        has_body = self.has_body or self._app_iter is not self.__dict__.get(
+            "_unset_app_iter", self._app_iter
+        )
+
+        if has_body or self.empty_body or is_head:
             app_iter = Response.__call__(self, environ, start_response)
         else:
             app_iter = self.generate_response(environ, start_response)
